@@ -625,10 +625,16 @@ impl Ctx {
         coverage.insert("evaluations".into(), json!(self.rec.evals));
         coverage.insert("distinct_nontrivial".into(), json!(self.rec.nontrivial.len()));
         coverage.insert("rule".into(), json!(self.rules.join(" | ")));
-        coverage.insert(
-            "samples".into(),
-            J::Array(self.rec.samples.iter().map(|s| json!(s)).collect()),
-        );
+        // samples: cases of this run, written out; a run that ended before any case completed (the code under test
+        // crashed at once) still shows the cases it reports, or says so
+        let mut samples: Vec<J> = self.rec.samples.iter().map(|s| json!(s)).collect();
+        if samples.is_empty() {
+            samples.extend(real.iter().take(3).map(|(v, _)| json!({"violating_case": v.case, "kind": v.kind})));
+        }
+        if samples.is_empty() {
+            samples.push(json!("no case completed in this run (see `inconclusive` / the violations)"));
+        }
+        coverage.insert("samples".into(), J::Array(samples));
         coverage.insert("classes".into(), J::Object(classes));
         coverage.insert("excluded".into(), J::Object(excluded));
         coverage.insert("known_findings_reproduced".into(), json!(self.known_reproduced));
